@@ -11,7 +11,7 @@ import (
 )
 
 func init() {
-	register("C14", c14Chunk, func(e *Env) { serveLoop(e, "C14") }, c14SkipErrors, c14Bound, c14Prefetch, c14Drain, c14EOF, c13Window, c13Remainder, c13Accumulate, c14SkipBound, c14Identity, c18Drain, c09Pools, c14KeepStream, c14Clamp, c14SkipWait)
+	register("C14", c14Chunk, func(e *Env) { serveLoop(e, "C14") }, c14SkipErrors, c14Bound, c14Prefetch, c14Drain, c14EOF, c13Window, c13Remainder, c13Accumulate, c14SkipBound, c14Identity, c18Drain, c09Pools, c14KeepStream, c14Clamp, c14SkipWait, c14LimitStrict)
 }
 
 const pkgUtils = Mod + "/pkg/common/utils"
